@@ -846,6 +846,14 @@ def normalize_chunks(chunks, shape=None, limit=None, dtype=None, previous_chunks
         raise ValueError(f"Chunks and shape must be of the same length/dimension. Got chunks={chunks}, shape={shape}")
     if -1 in chunks or None in chunks:
         chunks = tuple(s if c == -1 or c is None else c for c, s in zip(chunks, shape))
+    # -1 (full axis) has been substituted: any size still negative is invalid, both
+    # as a uniform size and inside an explicit per-block tuple (whose sum could
+    # otherwise happen to match the axis length).
+    if any(
+        (isinstance(c, Number) and c < 0) or (isinstance(c, (tuple, list)) and any(isinstance(x, Number) and x < 0 for x in c))
+        for c in chunks
+    ):
+        raise ValueError(f"Chunk sizes must be non-negative (use -1 or None for a full axis). Got chunks={chunks}")
 
     # If specifying chunk size in bytes, use that value to set the limit.
     # Verify there is only one consistent value of limit or chunk-bytes used.
